@@ -31,10 +31,12 @@
 
 use crate::ast::{Expr, Literal, MatchArm, RecordField};
 use crate::compiler::intrinsics;
-use crate::interner::{ExprNodeId, Symbol, ToSymbol, TypeNodeId};
+use crate::interner::{ExprKey, ExprNodeId, Symbol, ToSymbol, TypeNodeId};
 use crate::pattern::{Pattern, TypedId, TypedPattern};
 use crate::types::Type;
 use slotmap::Key;
+use std::cell::RefCell;
+use std::collections::BTreeSet;
 
 // ---------------------------------------------------------------------------
 // Public entry point
@@ -45,6 +47,22 @@ use slotmap::Key;
 /// of `wrap_to_staged_expr` followed by type checking).
 pub fn translate(expr: ExprNodeId) -> ExprNodeId {
     translate_stage0(expr)
+}
+
+/// Like [`translate`], with what the type checker found out about `expr`:
+/// `unit_escapes` are the `Escape` nodes whose operand has the type unit
+/// ([`InferContext::unit_typed_escapes`](crate::compiler::typing::InferContext::unit_typed_escapes)),
+/// whose operand is run for its effect and yields no code value.
+pub fn translate_typed(expr: ExprNodeId, unit_escapes: BTreeSet<ExprKey>) -> ExprNodeId {
+    UNIT_ESCAPES.set(unit_escapes);
+    let res = translate_stage0(expr);
+    UNIT_ESCAPES.take();
+    res
+}
+
+thread_local! {
+    /// The `Escape` nodes with a unit-typed operand of the program being translated by [`translate_typed`].
+    static UNIT_ESCAPES: RefCell<BTreeSet<ExprKey>> = const { RefCell::new(BTreeSet::new()) };
 }
 
 fn mangle_qualified_segments(segments: &[Symbol]) -> Symbol {
@@ -353,6 +371,14 @@ fn translate_code(expr: ExprNodeId) -> ExprNodeId {
         //
         // The inner expression is stage-0 code that, when executed, produces
         // an `ExprNodeId` (code value).  We translate it at stage 0.
+        //
+        // An operand of type unit (the last macro-stage section of a file ends
+        // in a call of a unit function, say) yields no code value, while the
+        // enclosing combinator call reads one from the stack: the operand is
+        // run for its effect and the code of `()` stands in for its value.
+        Expr::Escape(inner) if UNIT_ESCAPES.with_borrow(|set| set.contains(&expr.0)) => {
+            Expr::Then(translate_stage0(inner), Some(code_unit_expr())).into_id_without_span()
+        }
         Expr::Escape(inner) => translate_escape_operand(inner),
 
         // -- Nested bracket: increment stage further -------------------------
